@@ -1,6 +1,7 @@
 package value
 
 import (
+	"context"
 	"fmt"
 	"sync"
 )
@@ -67,6 +68,23 @@ func (w *WaitGroup) End() {
 
 func (w *WaitGroup) Wait() {
 	w.Native.Wait()
+}
+
+// Wait for the wait group, gives up with `Std::ExecutionAbortedError`
+// when the context gets cancelled.
+func (w *WaitGroup) WaitCtx(ctx context.Context) (err Value) {
+	done := make(chan struct{})
+	go func() {
+		w.Native.Wait()
+		close(done)
+	}()
+
+	select {
+	case <-done:
+		return Undefined
+	case <-ctx.Done():
+		return ExecutionAbortedError.ToValue()
+	}
 }
 
 func initWaitGroup() {
